@@ -31,7 +31,19 @@ def driver_line(op: dict, impl_resp: str) -> str | None:
             n, dev = h["n"], h["dev"]
         return (f"new sid={op['sid']} solver={op['solver']} id={op['id']} n={n} maxbs={op['maxbs']} dev={dev} gamma={op['gamma']} "
                 f"eps={op['eps']} test={op.get('test', 'span')} period={op.get('period', 1)} budget={op.get('budget', 100)} "
-                f"reset={op.get('reset', 0)} clear={op.get('clear', 1)} f={op.get('f', 0)}")
+                f"reset={op.get('reset', 0)} clear={op.get('clear', 1)} f={op.get('f', 0)} m={op.get('m', 1)} dir={op.get('dir', '-')} cfg={op.get('cfg', 0)}")
+    if o == "basedir":
+        return None
+    if o == "ls":
+        return f"ls dir={op['dir']}"
+    if o == "restore":
+        x = f"restore sid={op['sid']} dir={op['dir']}"
+        for k in ("step", "newdir", "f", "m"):
+            if k in op:
+                x += f" {k}={op[k]}"
+        return x
+    if o == "load":
+        return f"load sid={op['sid']} dir={op['dir']}" + (f" step={op['step']}" if op.get("step") is not None else "")
     if o == "setvalues":
         return f"setvalues sid={op['sid']} V={flist(op['V'])}"
     if o == "setpolicy":
